@@ -22,7 +22,11 @@ RULE = ('(1) hints of grammar G x objects (conforming, violating, unrelated) who
         'tuple, union and mapping-value contexts, accept and reject paths; all six entry points; after every check '
         'the spy log must stay inside the read-only allowlist, one-shot subjects must still yield exactly the planted '
         'items, identity snapshots must be unchanged and the wrapped callable must have received the identical '
-        'object; distinct by (hint, object shape, entry point); non-trivial = the object contains a spy or one-shot')
+        'object; (3) modules of annotated assignments (plain, attribute, nested-attribute and subscripted targets; '
+        'right-hand sides that count their evaluations, draw from a shared iterator or build spies / one-shot iterators) '
+        'imported under the import hook and unhooked: evaluation log, factory calls, iterator position, stored values and '
+        'spy mutations must be equal; distinct by (hint, object shape, entry point); non-trivial = the object contains a '
+        'spy or one-shot')
 
 BASES = (list, tuple, dict, set, frozenset, collections.deque)
 
